@@ -261,3 +261,78 @@ from sa import facts as _facts_mod  # noqa: E402
 
 if _history_quantifier not in _facts_mod.TEST_REWRITERS:
     _facts_mod.TEST_REWRITERS.append(_history_quantifier)
+
+
+def at_new_defaults(c: Ctx, u: Unit, e: ast.AST) -> tuple[ast.AST, list[str]]:
+    """*e* (an expression of unit *u*) read with every *new* optional parameter of u (not in sa/known_units.json "params", constant default) at its default, provided no library
+    call site of u passes anything else for it (it omits it, or forwards its own same-named new parameter that is at its default by the same argument).  Tests that become
+    decidable are pruned.  Returns (the specialised expression, the parameters that were fixed).  A caller outside the library that passes such a parameter asks for behaviour the
+    property's statement does not cover (a new option); what the library itself does is judged."""
+    import copy as _copy
+    import json as _json
+    import os as _os
+
+    from sa.simplify import _Prune
+
+    try:
+        kp = _json.load(open(_os.path.join(_os.path.dirname(_os.path.dirname(_os.path.abspath(__file__))), 'sa', 'known_units.json'), encoding='utf-8')).get('params') or {}
+    except Exception:
+        return e, []
+
+    def new_defaults(unit: Unit, depth: int = 0) -> dict[str, ast.Constant]:
+        known = kp.get(f'{unit.module}::{unit.qualname}')
+        if known is None or depth > 3:
+            return {}
+        a = unit.node.args
+        names = [x.arg for x in a.posonlyargs + a.args]
+        dflt = dict(zip(names[len(names) - len(a.defaults):], a.defaults)) if a.defaults else {}
+        dflt.update({k.arg: d for k, d in zip(a.kwonlyargs, a.kw_defaults) if d is not None})
+        cand = {n_: d for n_, d in dflt.items() if n_ not in known and isinstance(d, ast.Constant)}
+        if not cand:
+            return {}
+        out = {}
+        for n_, d in cand.items():
+            ok = True
+            pos = (names + [k.arg for k in a.kwonlyargs]).index(n_)
+            for cu, call in c.cg.callers(unit):
+                given = next((k.value for k in call.keywords if k.arg == n_), None)
+                off = 1 if (unit.cls and isinstance(call.func, ast.Attribute) and 'staticmethod' not in [U(x) for x in unit.node.decorator_list]) else 0
+                if given is None and n_ in names and len(call.args) > pos - off >= 0:
+                    given = call.args[pos - off]
+                if given is None:
+                    continue
+                if isinstance(given, ast.Constant) and given.value == d.value:
+                    continue
+                outer = cu
+                found = False
+                while outer is not None and not found:
+                    od = new_defaults(outer, depth + 1)
+                    if isinstance(given, ast.Name) and given.id in od and od[given.id].value == d.value:
+                        found = True
+                    outer = getattr(outer, 'outer', None)
+                if not found:
+                    ok = False
+            if ok:
+                out[n_] = d
+        return out
+
+    nd = new_defaults(u)
+    if not nd:
+        return e, []
+
+    class _Sub(ast.NodeTransformer):
+        def visit_Name(self, node):  # noqa: N802
+            if isinstance(node.ctx, ast.Load) and node.id in nd:
+                return ast.copy_location(_copy.deepcopy(nd[node.id]), node)
+            return node
+
+    saved = getattr(e, '_parent', None)
+    try:
+        if saved is not None:
+            e._parent = None  # type: ignore[attr-defined]
+        e2 = _copy.deepcopy(e)
+    finally:
+        if saved is not None:
+            e._parent = saved  # type: ignore[attr-defined]
+    e2 = _Prune().visit(_Sub().visit(e2))
+    return ast.fix_missing_locations(e2), sorted(nd)
